@@ -26,6 +26,7 @@ func init() {
 			"the drainer's wait for the policy lock is a single scheduling point (B1/B2); at store level it is the real policyMu"},
 		Quick: []Scenario{
 			{Name: "C08/delivered-batch", Build: plain, Pkg: "internal", Test: "TestVerif_C08Batch", Params: "len=5", Shards: 2, BudgetS: 60},
+			{Name: "C08/delivered-once", Build: plain, Pkg: "internal", Test: "TestVerif_C08Once", Params: "len=4", Shards: 2, BudgetS: 60},
 			sk("cap2", cap2, "2x2", 60), icb("cap2", cap2, "2x2", 1, "3", 60), sk("cap2", cap2, "2x3", 60), sk("cap2", cap2, "3-311", 60), sk("cap2", cap2, "3-221", 60),
 			sk("cap4", cap4, "2x3", 60), sk("cap4", cap4, "2x4", 60), sk("cap4", cap4, "3-221", 60),
 			icb("cap16", sched, "late-free", 4, "3", 60),
@@ -33,6 +34,7 @@ func init() {
 		},
 		Thorough: []Scenario{
 			{Name: "C08/delivered-batch", Build: plain, Pkg: "internal", Test: "TestVerif_C08Batch", Params: "len=8", Shards: 8, BudgetS: 600},
+			{Name: "C08/delivered-once", Build: plain, Pkg: "internal", Test: "TestVerif_C08Once", Params: "len=6", Shards: 8, BudgetS: 600},
 			sk("cap2", cap2, "2x2", 600), icb("cap2", cap2, "2x2", 1, "4", 600), sk("cap2", cap2, "2x3", 600), sk("cap2", cap2, "2x4", 840), sk("cap2", cap2, "3x2", 840), sk("cap2", cap2, "3-322", 840),
 			sk("cap4", cap4, "2x4", 600), sk("cap4", cap4, "2x5", 840), sk("cap4", cap4, "3-221", 600), sk("cap4", cap4, "3x2", 840),
 			icb("cap16", sched, "late-free", 16, "4", 840),
